@@ -48,10 +48,26 @@ def main():
             # violations already confirmed against the real code stand; the later phase did not run
             ctx.note("machinery_failure_after_violation", str(e)[:500])
             rc = ctx.finish()
-    except Exception:  # pylint: disable=broad-except
-        print("MACHINERY-FAILURE property=%s unexpected harness exception" % pid)
-        traceback.print_exc()
-        rc = 2
+    except Exception as e:  # pylint: disable=broad-except
+        # An exception nobody caught.  Raised by the library itself (innermost frame under REPO) on a call the harness makes
+        # without any trouble on the unchanged tree: the tree under check fails where the property promises an answer.
+        # Raised anywhere else: the machinery is broken, no verdict.
+        tb = traceback.extract_tb(e.__traceback__)
+        inner = os.path.abspath(tb[-1].filename) if tb else ""
+        if ctx is not None and not a.replay and inner.startswith(os.path.abspath(REPO) + os.sep):
+            frames = ["%s:%d %s" % (os.path.relpath(f.filename, REPO) if f.filename.startswith(REPO) else os.path.basename(f.filename), f.lineno, f.name)
+                      for f in tb[-8:]]
+            ctx.violation({"kind": "uncaught exception of the library", "frames": frames}, "NoException", "the call returns",
+                          "%s: %s" % (type(e).__name__, str(e)[:200]))
+            ctx.note("stopped_by_library_exception", frames)
+            rc = ctx.finish()
+        else:
+            print("MACHINERY-FAILURE property=%s unexpected harness exception" % pid)
+            traceback.print_exc()
+            rc = 2
+            if ctx is not None and ctx.violations:
+                ctx.note("machinery_failure_after_violation", "%s: %s" % (type(e).__name__, str(e)[:300]))
+                rc = ctx.finish()
     finally:
         os.chdir("/")
         shutil.rmtree(scratch, ignore_errors=True)
